@@ -5,6 +5,7 @@
      G <idx>            GetField
      S <idx> <hex>      SetField
      L <idx> <hex>      GetlineField
+     K <hex>            GetlineVar
      M <idx> <kind>     ModField, kind in suba gsuba app incr add2
      N                  GetNF
      W <bits> <hex>     SetNF (value: number bits, CONVFMT string)
@@ -126,6 +127,7 @@ let rec parse_ops = function
   | "G" :: i :: r -> GetField (idx_of i) :: parse_ops r
   | "S" :: i :: t :: r -> SetField (idx_of i, bytes_of_hex t) :: parse_ops r
   | "L" :: i :: t :: r -> GetlineField (idx_of i, bytes_of_hex t) :: parse_ops r
+  | "K" :: t :: r -> GetlineVar (bytes_of_hex t) :: parse_ops r
   | "M" :: i :: k :: r -> ModField (idx_of i, modfun k) :: parse_ops r
   | "N" :: r -> GetNF :: parse_ops r
   | "W" :: b :: s :: r -> SetNF { vnum = fnum_of_bits b; vstr = bytes_of_hex s } :: parse_ops r
